@@ -26,7 +26,7 @@ def enumerate_cases(wd):
             raise ToolError("MC_AppCodec enumeration failed: " + "; ".join(errs[:4])[:500])
         cases, pairs = [], []
         for line in out.splitlines():
-            m = re.match(r'<<"(CASE|PAIR)", "(.*)">>$', line.strip())
+            m = re.match(r'<<"(CASE|PAIR|ATTR)", "(.*)">>$', line.strip())
             if m:
                 (cases if m.group(1) == "CASE" else pairs).append(json.loads(vlib.tla_unescape(m.group(2))))
         return cases, pairs
@@ -35,6 +35,38 @@ def enumerate_cases(wd):
     cases = [c for r in res for c in r[0]]
     pairs = [p for r in res for p in r[1]]
     return cases, pairs
+
+
+def big_static_scenarios(tier):
+    """databases whose class 0 / event responses fill several fragments of several sizes with multi-field objects: the
+    response writers are exercised where a fragment runs out of space inside a header or an object"""
+    out = []
+    variants = [(1, 1, 1, 1, 1), (2, 2, 5, 2, 3), (5, 1, 1, 3, 7), (6, 2, 5, 4, 8), (3, 5, 9, 1, 4), (4, 6, 10, 2, 2)]
+    sizes = [249, 250, 251, 252, 253, 254, 255, 292, 300, 2048] if tier == "quick" else list(range(249, 330)) + [400, 512, 1000, 2048]
+    n = 0
+    for sol in sizes:
+        for (ai, ctr, fctr, aos, aiev) in (variants if tier == "thorough" else variants[n % 2::2]):
+            pts = []
+            for i in range(40):
+                pts.append({"ty": "ai", "ix": i, "cls": 1, "svar": ai, "evar": aiev, "db": 0.0, "init": {"val": i, "fl": 1, "tm": 5}})
+            for i in range(25):
+                pts.append({"ty": "ctr", "ix": i, "cls": 2, "svar": ctr, "evar": 5, "init": {"val": i, "fl": 1, "tm": 5}})
+                pts.append({"ty": "fctr", "ix": i, "cls": 3, "svar": fctr, "evar": 5, "init": {"val": i, "fl": 1, "tm": 5}})
+            for i in range(20):
+                pts.append({"ty": "aos", "ix": i, "cls": 1, "svar": aos, "evar": 7, "init": {"val": i, "fl": 1, "tm": 5}})
+                pts.append({"ty": "bi", "ix": i * 3, "cls": 2, "svar": 2, "evar": 2, "init": {"val": i % 2, "fl": 1, "tm": 5}})
+            steps = [{"k": "conn"}]
+            for i in range(0, 40, 3):
+                steps.append({"k": "upd", "ty": "ai", "ix": i, "val": 1000 + i, "fl": 1, "tm": 2000 + i})
+            for i in range(0, 25, 2):
+                steps.append({"k": "upd", "ty": "ctr", "ix": i, "val": 70000 + i, "fl": 1, "tm": 3000 + i})
+            steps.append({"k": "rx", "fn": "read", "seq": 1, "hdrs": [{"g": 60, "v": 2, "q": 6}, {"g": 60, "v": 3, "q": 6},
+                                                                       {"g": 60, "v": 4, "q": 6}, {"g": 60, "v": 1, "q": 6}]})
+            steps += [{"k": "confirm"}] * 14
+            out.append({"id": "big_%d_%d" % (sol, n), "cfg": {"unsol": False, "sol_buf": sol, "points": pts, "evmax": [100] * 8,
+                                                            "class_zero": [True] * 8}, "steps": steps, "meta": {"src": "big"}})
+            n += 1
+    return out
 
 
 def peer_fragments(tier, wd):
@@ -54,6 +86,7 @@ def peer_fragments(tier, wd):
     for alpha, groups in (("events", [("mixed", 1), ("os2_cap2", 0)]), ("ctl", [("mixed", 0)])):
         abstract += ost_check.simulated(tier, wd, devs, alpha, groups, num, 25)
     scen = [concretize.scenario(a["id"], a["hist"], a["model"], a["retries"]) for a in abstract]
+    scen += big_static_scenarios(tier)
     raw, _ = vlib.run_harness("ost", scen, "chk_C09/ost")
     mabs = list(mst_check.corpus())
     for gi, (alpha, cfgname) in enumerate(mst_check.ALL_PAIRS):
@@ -97,7 +130,7 @@ def run(tier, replay=None):
     if replay:
         with open(replay) as f:
             rp = json.load(f)
-        cases, pairs = ([rp["case"]] if "c" in rp["case"] else []), ([rp["case"]] if "c1" in rp["case"] else [])
+        cases, pairs = ([rp["case"]] if "c" in rp["case"] else []), ([rp["case"]] if "c" not in rp["case"] else [])
     scen = []
     for i, c in enumerate(cases):
         scen.append(dict(c, id=i, seed=sd))
@@ -115,7 +148,7 @@ def run(tier, replay=None):
             if not line:
                 continue
             r = json.loads(line)
-            if r.get("k") not in ("case", "pair"):
+            if r.get("k") not in ("case", "pair", "attr"):
                 continue
             s = by_id[r["id"]]
             e = {"k": r["k"], "id": r["id"], "panic": "panic" in r, "hv": r.get("hv", ""), "ov": r.get("ov", ""),
@@ -124,6 +157,9 @@ def run(tier, replay=None):
             panics += e["panic"]
             if r["k"] == "case":
                 e["c"] = s["c"]
+                e["exp"] = s["exp"]
+            elif r["k"] == "attr":
+                e["at"] = s["at"]
                 e["exp"] = s["exp"]
             else:
                 e["c1"], e["c2"] = s["c1"], s["c2"]
@@ -140,7 +176,7 @@ def run(tier, replay=None):
     open_f = [f for f in known["findings"] if prop in f.get("reasons", {}) and f["status"] == "open"]
     unexplained, explained = [], {}
     for v in viols:
-        if not v["sc"].startswith(("case", "pair")):
+        if not v["sc"].startswith(("case", "pair", "attr")):
             unexplained.append(v)
             continue
         sc = by_id[int(v["sc"].split()[1])]
